@@ -48,7 +48,7 @@ def check(ctx: Ctx) -> None:
         "every WAIT adds its time to the accumulator exactly once and is not copied, the accumulator is reset only right "
         "after a WAIT message carrying its value was emitted, it is never reset on a path that skips a message, it is "
         "flushed before every kept message and once more after the loop; KEEP every non-note, non-signature message is "
-        "appended exactly once, notes at most once with both a keep and a skip path; SIG the repeated-signature filter "
+        "appended exactly once, notes at most once with both a keep and a skip path; STACK the keep/skip decision of NOTE_ON / NOTE_OFF as a function of the number of open notes of the (channel, pitch) (0, 1, several), decided with the stack length tracked concretely: open / drop re-trigger / drop orphan / close outermost / drop inner; the stack is popped last-in-first-out and what is left on it at the end is removed from the output; SIG the repeated-signature filter "
         "compares the event with the variables that hold the signature in force and updates exactly those on the keep path, "
         "skipping otherwise; OUT the rebuilt list becomes the event list. "
         "Not decided: idempotence, sounding-set equality for paired input.")
@@ -102,6 +102,8 @@ def check(ctx: Ctx) -> None:
             ctx.check("continue" not in kinds and app_msg == (1, 1), "KEEP", inst + f": always kept, appended exactly once {app_msg}",
                       function=FN, construct="non-note, non-signature message not kept exactly once",
                       message=f"exits {sorted(kinds)}, appends {app_msg}", file=fi.file, node=loop)
+
+    stack_rules(ctx, fi, loop, out)
 
     # --- ACC1: resets are dominated by a flush in the same block; flush precedes the kept message; final flush
     resets = [n for n in ast.walk(loop) if isinstance(n, ast.Assign) and any(isinstance(t, ast.Name) and t.id == acc for t in n.targets)]
@@ -192,6 +194,94 @@ def check(ctx: Ctx) -> None:
                               node=inits[0] if inits else fi.node)
         ctx.check(found, "SIG", f"{FN}: {T} repetition filter present", function=FN, construct=f"no {T} repetition filter found",
                   message="", file=fi.file, node=loop)
+
+
+class _LenCase(TypeCase):
+    """TypeCase with one list variable whose length is tracked concretely (0, 1, 2 stand for empty / one / several)."""
+
+    def __init__(self, *a, stack: str, length: int, **kw):
+        super().__init__(*a, **kw)
+        self.stack = stack
+        self.length0 = length
+
+    def _len_of(self, st):
+        return st.vals.get("$len", frozenset([self.length0]))
+
+    def truth(self, test, st):
+        if isinstance(test, ast.Compare) and len(test.ops) == 1 and isinstance(test.left, ast.Call) and isinstance(test.left.func, ast.Name) \
+                and test.left.func.id == "len" and test.left.args and isinstance(test.left.args[0], ast.Name) and test.left.args[0].id == self.stack \
+                and isinstance(test.comparators[0], ast.Constant) and isinstance(test.comparators[0].value, int):
+            ls = self._len_of(st)
+            if len(ls) == 1:
+                n, c = next(iter(ls)), test.comparators[0].value
+                op = test.ops[0]
+                return {ast.Eq: n == c, ast.NotEq: n != c, ast.Gt: n > c, ast.GtE: n >= c, ast.Lt: n < c, ast.LtE: n <= c}.get(type(op))
+            return None
+        if isinstance(test, ast.UnaryOp) and isinstance(test.op, ast.Not) and isinstance(test.operand, ast.Name) and test.operand.id == self.stack:
+            ls = self._len_of(st)
+            return (next(iter(ls)) == 0) if len(ls) == 1 else None
+        if isinstance(test, ast.Name) and test.id == self.stack:
+            ls = self._len_of(st)
+            return (next(iter(ls)) != 0) if len(ls) == 1 else None
+        return super().truth(test, st)
+
+    def stmt(self, s, st):
+        for c in ast.walk(s):
+            if isinstance(c, ast.Call) and isinstance(c.func, ast.Attribute) and isinstance(c.func.value, ast.Name) and c.func.value.id == self.stack:
+                ls = self._len_of(st)
+                if c.func.attr == "append":
+                    st.vals["$len"] = frozenset(n + 1 for n in ls)
+                elif c.func.attr == "pop":
+                    st.vals["$len"] = frozenset(max(n - 1, 0) for n in ls)
+        return super().stmt(s, st)
+
+
+def stack_rules(ctx: Ctx, fi, loop, out: str) -> None:
+    """STACK: the keep/skip decision as a function of how many notes of the (channel, pitch) were open before the event,
+    decided by interpreting the NOTE_ON / NOTE_OFF branches with the stack length tracked concretely (0, 1, 2)."""
+    p = ctx.p
+    m = loop.target.id
+    # the per-(channel, pitch) stack variable: local assigned from `<dict>[...].get(<pitch>, [])` in the note branches
+    stacks = {}
+    for n in ast.walk(loop):
+        if isinstance(n, ast.Assign) and isinstance(n.targets[0], ast.Name) and isinstance(n.value, ast.Call) and call_method(n.value)[1] == "get" \
+                and len(n.value.args) == 2 and isinstance(n.value.args[1], ast.List):
+            stacks[n.targets[0].id] = n
+    if len(stacks) != 1:
+        ctx.undetermined("STACK", f"{FN}: open-note stack", f"stack variable not recognised ({sorted(stacks)}): not judged")
+        return
+    stack = next(iter(stacks))
+    want = {("NOTE_ON", 0): "keep", ("NOTE_ON", 1): "skip", ("NOTE_ON", 2): "skip",
+            ("NOTE_OFF", 0): "skip", ("NOTE_OFF", 1): "keep", ("NOTE_OFF", 2): "skip"}
+    why = {("NOTE_ON", 0): "a note-on of a silent pitch opens a note", ("NOTE_ON", 1): "re-trigger of a sounding note is dropped",
+           ("NOTE_ON", 2): "re-trigger of a sounding note is dropped", ("NOTE_OFF", 0): "a note-off without an open note (orphan) is dropped",
+           ("NOTE_OFF", 1): "the note-off closing the outermost note is kept", ("NOTE_OFF", 2): "an inner note-off of nested notes is dropped"}
+    for (T, L), w in want.items():
+        tc = _LenCase(p, fi, {m}, T, stack=stack, length=L)
+        exits = tc.run_body(loop.body)
+        kept = events_matching(exits, lambda e: e[0] == "append" and e[1] == out and e[2] == "msg", kinds=("end",))
+        kinds = {k for k, _ in exits}
+        got = "keep" if kinds == {"end"} and kept == (1, 1) else ("skip" if kinds == {"continue"} else f"mixed({sorted(kinds)}, appended {kept})")
+        ctx.check(got == w, "STACK", f"{FN}: {T} with {L if L < 2 else '2+'} open note(s) of its channel and pitch -> {got}", function=FN,
+                  construct=f"{T} arriving with {L if L < 2 else 'several'} open note(s) is {'kept' if got == 'keep' else 'not handled as required'}"
+                  if got != w else "ok",
+                  message=f"expected `{w}` ({why[(T, L)]}), the code does `{got}`", file=fi.file, node=loop)
+    # LIFO: only the first-pushed note-on is in the output, so it must stay on the stack until the stack empties
+    pops = [c for c in ast.walk(loop) if isinstance(c, ast.Call) and isinstance(c.func, ast.Attribute) and c.func.attr == "pop"
+            and isinstance(c.func.value, ast.Name) and c.func.value.id == stack]
+    for c in pops:
+        lifo = not c.args or (isinstance(c.args[0], ast.UnaryOp) and isinstance(c.args[0].op, ast.USub) and isinstance(c.args[0].operand, ast.Constant)
+                              and c.args[0].operand.value == 1)
+        ctx.check(lifo, "STACK", f"{FN}: the open-note stack is popped from the top (`{short(c)}`)", function=FN,
+                  construct="open-note stack not popped last-in-first-out",
+                  message="only the first note-on pushed for a (channel, pitch) is in the output; popping it while later ones remain makes the "
+                          "final unclosed-note clean-up miss it (an unclosed note survives)", file=fi.file, node=c)
+    # the clean-up removes every message still on a stack from the output
+    after = [s for s in fi.node.body if getattr(s, "lineno", 0) > loop.end_lineno]
+    rem = [c for s in after for c in ast.walk(s) if isinstance(c, ast.Call) and call_method(c)[1] == "remove" and isinstance(call_method(c)[0], ast.Name)
+           and call_method(c)[0].id == out]
+    ctx.check(bool(rem), "STACK", f"{FN}: notes still open at the end are removed from the output", function=FN,
+              construct="no removal of notes left open at the end of the sequence", message="", file=fi.file, node=fi.node)
 
 
 def _block_of(n: ast.AST) -> list[ast.stmt]:
